@@ -305,6 +305,7 @@ def decoders (P, K, n):
   of, nx = P.of, P.nx
   cls = K.cls(P)
   cat = K.cat
+  if cat == 'wire': cat = K.opts['carrier']
   if cat == 'msg':
     return [('unpack_new', cls.unpack_new, True),
             ('dispatch', lambda raw, off: P.unpackers[raw[off + 1]](raw, off), True)]
@@ -350,7 +351,50 @@ def decoders (P, K, n):
   raise ValueError(cat)
 
 
+def run_wire (P, K, v):
+  """Wire-origin case: the bytes come from the reference encoder (a legal encoding that the
+  library itself may never produce); decoding must consume exactly them and the decoded object
+  must report that length and re-encode to the very same bytes."""
+  V = Verdict()
+  own = K.opts.get('owner', K.name.split('/')[0])
+  def raised (phase, e):
+    site, inpox = exc_site(P, e)
+    if not inpox: raise e
+    if site.endswith('@'): site += own
+    V.fail("raises:" + site, "%s of %s raised %s: %s" % (phase, K.name, type(e).__name__, str(e)[:120]))
+  try:
+    pieces = K.build(P, v)
+  except OutOfScope:
+    V.note = 'out-of-scope'; return V
+  raw = S.join(pieces)
+  V.raw = raw
+  n = len(raw)
+  for label, fn, strict in decoders(P, K, n):
+    for data, off in ((raw, 0), (PRE + raw + POST, len(PRE))):
+      emb = " (embedded at offset %d with trailing bytes)" % off if off else ""
+      try:
+        V.calls += 1; off2, o = fn(data, off)
+      except Exception as e:
+        raised("decoding a wire-origin encoding via %s%s" % (label, emb), e); return V
+      if off2 != off + n:
+        V.fail("wire:%s:consumed" % own, "%s: decode via %s%s consumed %s of %d bytes" % (K.name, label, emb, off2 - off, n)); return V
+      try:
+        V.calls += 2; b2 = o.pack(); l2 = len(o)
+      except Exception as e:
+        raised("re-encoding a decoded wire-origin encoding (via %s)" % label, e); return V
+      if b2 != raw:
+        i = next((j for j in range(min(n, len(b2))) if raw[j] != b2[j]), min(n, len(b2)))
+        d = S.first_diff(pieces, b2)
+        if d is not None: own = layout_owner(K, d[0])[0]
+        V.fail("wire:%s:reencode" % own, "%s: %s decoded via %s%s re-encodes to %d bytes differing at offset %d (%s...)"
+               % (K.name, raw[:24].hex(), label, emb, len(b2), i, b2[:24].hex())); return V
+      if l2 != n:
+        V.fail("wire:%s:len" % own, "%s: len() of the decoded object is %d for %d wire bytes" % (K.name, l2, n)); return V
+  return V
+
+
 def run_case (P, K, v, state=True):
+  if K.cat == 'wire': return run_wire(P, K, v)
   V = Verdict()
   own = K.opts.get('owner', K.name.split('/')[0])
   def raised (phase, e):
@@ -462,7 +506,7 @@ def run_case (P, K, v, state=True):
         dfail("reencode", "reencode:%s:%s" % (own, label), "%s: re-encoding the object decoded via %s%s differs from the original bytes at offset %d"
                % (K.name, label, emb, i)); break
   if state and not V.fails and not K.opts.get('noreuse'):
-    state_phases(P, K, v, obj, b, exp, flags, V, raised, ov)
+    state_phases(P, K, v, obj, b, exp, flags, V, raised, ov, int(state))
   return V
 
 
@@ -540,9 +584,78 @@ def use (P, y):
     except Exception: pass
   return n
 
+LISTY = ('actions', 'ports', 'queues', 'properties', 'spec', 'slaves', 'body')
+EDIT_MODES = ('reverse', 'replace', 'mutate')
+
+def list_fields (v):
+  """[(vector key, element list, wrap)] for the list-valued members with >= 2 elements"""
+  out = []
+  for f in LISTY:
+    x = v.get(f)
+    if not isinstance(x, list): continue
+    if f == 'body':
+      if len(x) != 2 or x[0] != 'list' or not isinstance(x[1], list): continue
+      lst, wrap = x[1], (lambda l, x=x: [x[0], l])
+    else:
+      lst, wrap = x, (lambda l: l)
+    if len(lst) < 2 or any(isinstance(a, dict) and 'rep' in a for a in lst): continue
+    out.append((f, lst, wrap))
+  return out
+
+def edit_phase (P, K, v, b, flags, V, raised, own, state):
+  """encode -> in-place edit of a list-valued member that keeps its length (reverse it / replace
+  an element / change the fields of an element) -> encode: must be the encoding of the edited
+  value.  Quick tier: one of the three edits per (case, list), chosen by a checksum of the vector
+  (lists left at the kind's base value: every 4th case, also by checksum);
+  thorough tier: all three, each on its own object, plus reverse-then-replace on one object."""
+  lf = list_fields(v)
+  if not lf: return True
+  crc = zlib.crc32(repr(v).encode())
+  pick = crc % 3
+  ref = ref_of(P, K)
+  for f, lst, wrap in lf:
+    if state < 2 and ref is not None and ref[0].get(f) == v[f] and (crc >> 4) % 4:
+      continue      # quick tier: a list left at its base value is edited in every 4th case only
+    plans = [[EDIT_MODES[pick]]] if state < 2 else [['reverse'], ['replace'], ['mutate'], ['reverse', 'replace']]
+    for plan in plans:
+      try:
+        x = K.build(P, v)[0]; x.pack(); V.calls += 2
+      except Exception:
+        return True
+      cur = list(lst)
+      for mode in plan:
+        new = cur[::-1] if mode == 'reverse' else [cur[-1]] + cur[1:]
+        if new == cur: continue
+        v2 = dict(v); v2[f] = wrap(new)
+        try:
+          t = K.build(P, v2); y = t[0]; by = y.pack(); V.calls += 2
+        except Exception:
+          break                               # the edited value is not a case of its own
+        try:
+          V.calls += 3
+          attr = getattr(x, f)
+          if not isinstance(attr, list): break
+          ny = getattr(y, f)
+          if mode == 'reverse': attr.reverse()
+          elif mode == 'mutate' and type(attr[0]) is type(ny[0]) and assign_from(P, attr[0], ny[0]): pass
+          else: attr[0] = ny[0]
+          bx = x.pack(); lx = len(x)
+        except Exception as e:
+          raised("in-place edit (%s %s) and pack() of an already encoded object" % (mode, f), e); return False
+        if bx != by or lx != len(by):
+          hl = struct.unpack('!H', bx[2:4])[0] if K.cat in ('msg', 'msg1', 'nxmsg') and len(bx) >= 4 else None
+          V.fail("edited:%s:pack-after-inplace-edit" % own,
+                 "%s: encoded, then %s changed in place (%s), encoded again: %d bytes%s, len() %d; a fresh object with the edited value encodes to %d bytes%s"
+                 % (K.name, f, '+'.join(plan), len(bx), (", header length %d" % hl) if hl is not None else "", lx, len(by),
+                    "" if len(bx) != len(by) else ", first difference at offset %d" % next((j for j in range(len(by)) if bx[j] != by[j]), -1)))
+          return False
+        cur = new
+  return True
+
+
 CLONE_CATS = ('msg', 'msg1', 'nxmsg', 'action', 'nxaction', 'nxm', 'nxmatch')
 
-def state_phases (P, K, v, obj, b, exp, flags, V, raised, ov=None):
+def state_phases (P, K, v, obj, b, exp, flags, V, raised, ov=None, state=1):
   own = K.opts.get('owner', K.name.split('/')[0])
   n = len(b)
   strict_eq = flags.get('eq', True) and K.opts.get('eq', True)
@@ -593,6 +706,8 @@ def state_phases (P, K, v, obj, b, exp, flags, V, raised, ov=None):
             raised("modifying the clone of a used match", e); return
     finally:
       P.of._logger = None
+  # ---- edited after encoding ------------------------------------------------------------
+  if not edit_phase(P, K, v, b, flags, V, raised, own, state): return
   # ---- reused ------------------------------------------------------------------------
   ref = ref_of(P, K)
   if ref is None or K.cat == 'nxm': return
@@ -1179,6 +1294,45 @@ def _b_nxmatch (P, v):
   return m, exp
 Kind('nx_match', 'nxmatch', [], _b_nxmatch, nxcls('nx_match'))
 
+# wire-origin NXM forms (the reference encoder keeps an explicit all-ones mask)
+def wire_nxm (e, path=''):
+  m = e.get('mask')
+  return S.nxm_entry(e['cls'], bytes.fromhex(e['value']), None if m is None else bytes.fromhex(m), path, explicit=True)
+
+Kind('nxm_entry/wire', 'wire', [], lambda P, v: wire_nxm(v), lambda P: None, carrier='nxm', owner='nxm_entry')
+Kind('nx_match/wire', 'wire', [], lambda P, v: [x for i, e in enumerate(v['parts']) for x in wire_nxm(e, 'parts[%d]:nxm_entry.' % i)], nxcls('nx_match'),
+     carrier='nxmatch', owner='nx_match')
+
+def wire_nxm_forms (P, thorough):
+  """every registered NXM class x values x wire mask forms {none, all-ones, zero, partial...}"""
+  nx = P.nx
+  for name in sorted(nx._nxm_name_to_type):
+    if name not in S.NXM_FIELDS: continue
+    cls = nx._nxm_type_to_class[nx._nxm_name_to_type[name]]
+    n = cls._nxm_length
+    vals = [fpbytes(5, n), b'\0' * n, b'\xff' * n]
+    if thorough: vals += [b'\0' * (n - 1) + b'\1', b'\x80' + b'\0' * (n - 1)]
+    for val in vals:
+      yield dict(cls=name, value=val.hex(), mask=None)
+    if not cls().allow_mask: continue
+    masks = [b'\xff' * n, b'\0' * n, b'\xff' * (n - 1) + b'\xf0', bytes(((0xf0 if i % 2 == 0 else 0x3c) for i in range(n)))]
+    if issubclass(cls, nx._nxm_tcp_flags):
+      masks = [b'\x0f\xff', b'\0\0', b'\x0f\x0f']     # the all-ones form of a 12-bit field is not claimed
+    for val in vals:
+      for m in masks:
+        yield dict(cls=name, value=bytes(a & b for a, b in zip(val, m)).hex(), mask=m.hex())
+
+def wire_match_lists (P, thorough):
+  forms = [e for e in wire_nxm_forms(P, False) if e['value'] != '00' * (len(e['value']) // 2) or e['mask'] is None]
+  ones = [e for e in forms if e['mask'] is not None and set(e['mask']) == {'f'}]
+  for e in forms: yield [e]
+  keep = ones[::3] if not thorough else ones
+  for i, a in enumerate(keep):
+    b = keep[(i + 1) % len(keep)]
+    if a['cls'] != b['cls']:
+      yield [a, b]
+      yield [dict(cls='NXM_OF_IN_PORT', value='0007', mask=None), a, b]
+
 def nxm_parts ():
   e = lambda c, v, m=None: dict(cls=c, value=v, mask=m)
   return [e('NXM_OF_IN_PORT', '0007'), e('NXM_OF_ETH_TYPE', '0800'), e('NXM_OF_ETH_DST', '0123456789ab'),
@@ -1580,6 +1734,18 @@ def _b_nx_flow_mod (P, v):
   return o, exp, dict(eq=strict)
 Kind('nx_flow_mod', 'nxmsg', HDR + NXFM + [('match', NXMATCH), ('actions', ACTS)], _b_nx_flow_mod, nxcls('nx_flow_mod'))
 
+def _w_nx_flow_mod (P, v):
+  mp = []
+  for i, e in enumerate(v['match']): mp.extend(wire_nxm(e, 'match:nx_match.parts[%d]:nxm_entry.' % i))
+  ml = S.plen(mp)
+  ap = sublist(P, v['actions'], 'actions')[1]()
+  sv = dict((f, v[f]) for f, t in FMOD8)
+  sv.update(header=dict(version=v['version'], xid=v['xid']), buffer_id=bufspec(v['buffer_id']),
+            command=v['table_id'] << 8 | v['command'], match_len=ml)
+  return S.nx_message('nx_flow_mod', S.NXT['FLOW_MOD'], sv, mp + S.raw('match_pad', b'\0' * S.pad8(ml)) + ap)
+Kind('nx_flow_mod/wire', 'wire', HDR + NXFM + [('match', NXMATCH), ('actions', ACTS)], _w_nx_flow_mod, nxcls('nx_flow_mod'),
+     carrier='nxmsg', owner='nx_flow_mod')
+
 NXPI = [('buffer_id', BUF), ('total_len', ('enum', 0x9c41, [0xffff, 0x8000, None])), ('reason', 'u8'), ('table_id', 'u8'), ('cookie', 'u64')]
 def _b_nxt_packet_in (P, v):
   data = payload(v['data'])
@@ -1598,11 +1764,25 @@ def _b_nxt_packet_in (P, v):
 Kind('nxt_packet_in', 'nxmsg', HDR + NXPI + [('match', NXMATCH), ('data', LEN(20, 0, 1, 1500))],
      _b_nxt_packet_in, nxcls('nxt_packet_in'), nx_dispatch=True, payload='data')
 
+def _w_nxt_packet_in (P, v):
+  data = payload(v['data'])
+  mp = []
+  for i, e in enumerate(v['match']): mp.extend(wire_nxm(e, 'match:nx_match.parts[%d]:nxm_entry.' % i))
+  ml = S.plen(mp)
+  sv = dict((f, v[f]) for f, t in NXPI)
+  sv.update(header=dict(version=v['version'], xid=v['xid']), buffer_id=bufspec(v['buffer_id']), match_len=ml,
+            total_len=len(data) if v['total_len'] is None else v['total_len'])
+  return S.nx_message('nx_packet_in', S.NXT['PACKET_IN'], sv,
+                      mp + S.raw('match_pad', b'\0' * S.pad8(ml)) + S.raw('pad2', b'\0\0') + S.raw('data', data))
+Kind('nxt_packet_in/wire', 'wire', HDR + NXPI + [('match', NXMATCH), ('data', LEN(20, 0, 1, 1500))],
+     _w_nxt_packet_in, nxcls('nxt_packet_in'), carrier='nxmsg', nx_dispatch=True, owner='nxt_packet_in')
+
 
 # ---------------------------------------------------------------------------------------
 # the enumerated space
 # ---------------------------------------------------------------------------------------
-CUSTOM = ('ofp_match', 'nxm_entry', 'nx_match', 'ofp_stats_request/body-reassigned', 'ofp_stats_reply/body-appended')
+CUSTOM = ('ofp_match', 'nxm_entry', 'nx_match', 'ofp_stats_request/body-reassigned', 'ofp_stats_reply/body-appended',
+          'nxm_entry/wire', 'nx_match/wire', 'nx_flow_mod/wire', 'nxt_packet_in/wire')
 
 def k_for (K, thorough):
   n = len([f for f in K.fields if f[0] not in K.fixed])
@@ -1686,6 +1866,10 @@ def sweeps (thorough):
   out.append(('nxmatch-lists<=2', 'nx_flow_mod', lambda: (K['nx_flow_mod'].basev(match=p) for p in nxmatch_lists(2))))
   out.append(('nxmatch-lists<=1', 'nxt_packet_in', lambda: (K['nxt_packet_in'].basev(match=p) for p in nxmatch_lists(1))))
   out.append(('learn-specs<=%d' % L, 'nx_action_learn', lambda: (K['nx_action_learn'].basev(spec=s) for s in learn_spec_seqs(L))))
+  out.append(('wire-nxm-forms', 'nxm_entry/wire', lambda: wire_nxm_forms(pox(), thorough)))
+  out.append(('wire-nxm-lists', 'nx_match/wire', lambda: (dict(parts=p) for p in wire_match_lists(pox(), thorough))))
+  for cont in ('nx_flow_mod/wire', 'nxt_packet_in/wire'):
+    out.append(('wire-nxm-lists', cont, lambda cont=cont: (K[cont].basev(match=p) for p in wire_match_lists(pox(), thorough))))
   out.append(('64KiB-limits', None, lambda: limit_cases()))
   out.append(('changed-after-first-encoding', None, lambda: mutation_cases()))
   return out
@@ -1713,7 +1897,7 @@ def _work (item):
       if kname is None: kn, v = x
       else: kn, v = kname, x
       K = KINDS[kn]
-      st = (j % state_stride(sname, thorough)) == 0
+      st = (2 if thorough else 1) if (j % state_stride(sname, thorough)) == 0 else 0
       V = run_case(P, K, v, st)
       rep.evaluations += 1
       rep.transitions += V.calls
@@ -1726,7 +1910,7 @@ def _work (item):
       rep.outcome((kn, tuple(f[0] for f in V.fails), V.note, len(raw), zlib.crc32(raw) & 0xff))
       for suffix, text in V.fails:
         rep.violation("%s:%s" % (PID, suffix), text, dict(kind=kn, v=v, sweep=sname, state=st))
-      if j == 0 and not V.fails and V.raw is not None and len(raw) <= 128 and sname.startswith(('lattice', 'nxm', 'match-lattice')):
+      if j == 0 and not V.fails and V.raw is not None and len(raw) <= 128 and sname.startswith(('lattice', 'nxm', 'match-lattice', 'wire')):
         rep.sample(dict(kind=kn, sweep=sname, vector=v, bytes=raw.hex(), verdict=V.note or 'held'))
   except Exception:
     rep.error("sweep %s/%s case %d: %s" % (sname, kname, j, traceback.format_exc(limit=6).replace("\n", " | ")[-700:]))
